@@ -13,7 +13,25 @@ class AccessMixin:
     # ------------------------------------------------------------------
     # attributes
     # ------------------------------------------------------------------
+    def real_type_of(self, obj):
+        """the python type a model value stands for, when it is a builtin one"""
+        import builtins
+        if isinstance(obj, ClassVal) and obj.builtin:
+            t = getattr(builtins, obj.name, None)
+            return t if isinstance(t, type) else None
+        if isinstance(obj, bool):
+            return None
+        for mt, rt in (((int, Sym), int), ((str, SymStr), str), ((bytes, SymBytes), bytes), ((Buf, View), bytearray),
+                       ((list, SymList), list), ((dict, SymDict), dict), ((tuple,), tuple), ((set,), set), ((float,), float)):
+            if isinstance(obj, mt):
+                return rt
+        return None
+
     def attr_error(self, obj, name, node, frame):
+        rt = self.real_type_of(obj)
+        if rt is not None and hasattr(rt, name) and not name.startswith("__"):
+            # python has this attribute; the model does not: that is this analysis's gap, never the library's error
+            raise AnalysisError("unmodelled-builtin", "%s.%s used at %s" % (rt.__name__, name, frame.where(node)))
         self.event("attr-error", obj=obj, name=name, where=frame.where(node), node=node)
         raise PyRaise(Instance(self.bclasses["AttributeError"],
                                ("%s has no attribute '%s'" % (self.describe_obj(obj), name),)),
@@ -83,7 +101,10 @@ class AccessMixin:
             hook = getattr(self, "external_attr_hook", None)
             if hook is not None:
                 hook(obj, name, node, frame)        # may fork on "the binding's object has no such attribute"
-            return External(obj.name + "." + name)
+            r = External(obj.name + "." + name)
+            if name == "st_ino" and getattr(obj, "inode_gen", None) is not None:
+                r.inode_gen = obj.inode_gen
+            return r
         if isinstance(obj, Unknown):
             return Unknown("attr %s of unknown(%s)" % (name, obj.reason))
         if type(obj).__name__ == "SuperProxy":
@@ -137,6 +158,21 @@ class AccessMixin:
             if cls.builtin or any(c.builtin for c in cls.mro()):
                 if name in ("__init__", "__new__", "mro", "__doc__", "__module__", "__qualname__", "__subclasses__"):
                     return Builtin("%s.%s" % (cls.name, name), lambda a, k, n, f: None)
+                if cls.name == "int" and name == "from_bytes":
+                    I = self
+
+                    def from_bytes(a, k, n, f):
+                        order = a[1] if len(a) > 1 else k.get("byteorder", "big")
+                        items = I.iterate(a[0], n, f)
+                        if items is None or order not in ("big", "little") or k.get("signed"):
+                            return Unknown("int.from_bytes of a dynamic buffer / order")
+                        if order == "little":
+                            items = list(reversed(items))
+                        acc = 0
+                        for x in items:
+                            acc = I.binop("|", I.binop("<<", acc, 8, n, f), x, n, f)
+                        return acc
+                    return Builtin("int.from_bytes", from_bytes)
             if any(isinstance(b, (External, Unknown)) for c in cls.mro() for b in c.bases):
                 return Unknown("attribute %s of class with external base" % name)
             return self.attr_error(cls, name, node, frame)
